@@ -348,11 +348,41 @@ def hyp_collect(stats, make_test, seed_value, max_examples, rounds=6, shrink=Tru
     return collected
 
 
-def run_machine_collect(stats, machine_factory, seed_value, max_examples, steps, rounds=5, shrink=True,
-                        is_known=None):
+def ddmin_list(items, still_fails, max_tests=300):
+    """Greedy delta-debugging over a list: drop chunks while still_fails(candidate) holds."""
+    items = list(items)
+    tests = 0
+    chunk = max(1, len(items) // 2)
+    while chunk >= 1 and tests < max_tests:
+        i = 0
+        changed = False
+        while i < len(items) and tests < max_tests:
+            cand = items[:i] + items[i + chunk:]
+            tests += 1
+            ok = False
+            if cand:
+                try:
+                    ok = still_fails(cand)
+                except Exception:
+                    ok = False
+            if ok:
+                items = cand
+                changed = True
+            else:
+                i += chunk
+        if not changed:
+            chunk //= 2
+    return items
+
+
+def run_machine_collect(stats, machine_factory, seed_value, max_examples, steps, rounds=5, shrink=False,
+                        is_known=None, minimise=None):
     """Same as hyp_collect for RuleBasedStateMachine classes.
 
-    machine_factory(report) returns a fresh machine class whose rules call report(...)."""
+    machine_factory(report) returns a fresh machine class whose rules call report(...).
+    Histories are not shrunk by Hypothesis (its stateful shrinker can take minutes per failure);
+    instead `minimise(fkey, case) -> case` (usually a ddmin over the recorded operation list,
+    re-executed by the property's plain replay function) produces the minimal reproduction."""
     import hypothesis
     from hypothesis.stateful import run_state_machine_as_test
     collected = {}
@@ -376,6 +406,15 @@ def run_machine_collect(stats, machine_factory, seed_value, max_examples, steps,
         except Failed:
             fkey, case, expected, observed, note = last["f"]
             collected[fkey] = True
+            if minimise is not None:
+                try:
+                    m = minimise(fkey, case)
+                    if isinstance(m, tuple):
+                        case, expected, observed = m
+                    else:
+                        case = m
+                except Exception:
+                    pass
             stats.fail(fkey, case, expected, observed, note, size=0)
         except hypothesis.errors.Flaky as e:
             raise HarnessError(f"flaky state machine: {e}")
@@ -385,10 +424,11 @@ def run_machine_collect(stats, machine_factory, seed_value, max_examples, steps,
 # --------------------------------------------------------------------------- sharding
 
 def _shard_entry(args):
-    modname, fname, shard_args = args
+    modname, fname, shard_args, mem_gb = args
     try:
         import importlib
-        limit_memory()
+        if mem_gb:
+            limit_memory(mem_gb)
         setup_repo_path()
         mod = importlib.import_module(modname)
         st = getattr(mod, fname)(*shard_args)
@@ -397,18 +437,24 @@ def _shard_entry(args):
         return ("err", f"{type(e).__name__}: {e}\n{traceback.format_exc()}")
 
 
-def pool_map(modname, fname, shard_args_list, procs=None):
-    """Run mod.fname(*args) for each args tuple in a process pool; return merged Stats."""
+def pool_map(modname, fname, shard_args_list, procs=None, mem_gb=6):
+    """Run mod.fname(*args) for each args tuple in a process pool; return merged Stats.
+    mem_gb: per-worker address-space cap (None = no cap; DuckDB cannot start under a cap)."""
     import multiprocessing as mp
+    from concurrent.futures import ProcessPoolExecutor
+    from concurrent.futures.process import BrokenProcessPool
     procs = procs or min(16, os.cpu_count() or 1, max(1, len(shard_args_list)))
     merged = Stats()
-    jobs = [(modname, fname, a) for a in shard_args_list]
+    jobs = [(modname, fname, a, mem_gb) for a in shard_args_list]
     if procs == 1 or len(jobs) == 1:
-        results = [_shard_entry(j) for j in jobs]
+        results = [_shard_entry(j[:3] + (None,)) for j in jobs]
     else:
         ctx = mp.get_context("spawn")
-        with ctx.Pool(procs) as pool:
-            results = pool.map(_shard_entry, jobs, chunksize=1)
+        try:
+            with ProcessPoolExecutor(max_workers=procs, mp_context=ctx) as pool:
+                results = list(pool.map(_shard_entry, jobs))
+        except BrokenProcessPool as e:
+            raise HarnessError(f"a worker process died ({modname}.{fname}): {e}")
     for kind, val in results:
         if kind == "err":
             raise HarnessError("shard failed: " + val)
